@@ -398,6 +398,29 @@ func (w *c21Wire) sideLimits(side, typ int) (local, adv int64, ok bool) {
 	return local, adv, true
 }
 
+// c21HalfClosedForever counts (white box, diagnostics only) the peer-initiated streams of c
+// whose read side the application has closed while the final size is still unknown: at
+// quiescence those can never reach the "closed" state, so their stream credit is never
+// returned to the peer. Not a C21 verdict; it explains runs that end with NewStream blocked.
+func c21HalfClosedForever(c *Conn) (n int) {
+	var ss []*Stream
+	c.runOnLoop(context.Background(), func(now time.Time, c *Conn) {
+		for id, ms := range c.streams.streams {
+			if ms.s != nil && id.initiator() != c.side {
+				ss = append(ss, ms.s)
+			}
+		}
+	})
+	for _, s := range ss {
+		s.ingate.lock()
+		if s.inclosed.isSet() && s.insize == -1 && s.inresetcode == -1 {
+			n++
+		}
+		s.inUnlock()
+	}
+	return n
+}
+
 // ---- (a) lossy workload ----
 
 type c21LossyCase struct {
@@ -724,7 +747,7 @@ func c21RunLossy(lc *c21LossyCase, viol vlpViolFunc) *c21LossyResult {
 			return len(d) < 12
 		})
 		sort.Strings(d)
-		res.StuckDump = fmt.Sprintf("pending=%d: %s", pending.Load(), strings.Join(d, "; "))
+		res.StuckDump = fmt.Sprintf("pending=%d (peer streams read-closed before their final size arrived, never finished: client %d, server %d): %s", pending.Load(), c21HalfClosedForever(p.Cli), c21HalfClosedForever(p.Srv), strings.Join(d, "; "))
 	}
 
 	// NewStream against a zero limit: still blocked after everything else has finished.
@@ -917,8 +940,8 @@ func TestVerif_C21(t *testing.T) {
 		r.Eval(res.OpenedAfter > 0 && w.maxSent > 0, "lossy", op, ac, cl, w.maxSent, w.maxRaised, w.localAtLimit, res.OpenedAfter)
 		r.Event("lossy_runs", 1)
 		if res.Stuck {
-			r.Event("lossy_runs_not_finished_in_bound", 1)
-			r.Note("lossy case %d: streams still pending at the virtual-time bound (cfg %v want %v opened %v accepted %v closed %v) %s", c.Index, lc.Cfg, lc.Want, res.Opened, res.Accepted, res.AppClosed, res.StuckDump)
+			r.Event("lossy_runs_ended_with_newstream_still_blocked", 1)
+			r.Note("lossy case %d: no progress for 120 virtual s with callers still pending (cfg %v want %v opened %v accepted %v closed %v) %s", c.Index, lc.Cfg, lc.Want, res.Opened, res.Accepted, res.AppClosed, res.StuckDump)
 		} else {
 			r.Event("lossy_runs_completed", 1)
 		}
